@@ -371,6 +371,78 @@ def threads_gated(res, rng, lines, impl_out, count, tag0):
             res.violations.append(Violation('response-missing:multithreading', 'a finished action produced no response within 3 s', case))
 
 
+class MeetSub(BoboAction):
+    """sub-action of a multi-action that returns only when `parties` executions have reached it (or after a timeout):
+    forces executions of the SAME multi-action object to overlap between two of its sub-actions."""
+
+    def __init__(self, name, parties):
+        super().__init__(name)
+        self.parties = parties
+        self.lock = threading.Lock()
+        self.arrived = 0
+        self.all_in = threading.Event()
+
+    def execute(self, event):
+        with self.lock:
+            self.arrived += 1
+            if self.arrived >= self.parties:
+                self.all_in.set()
+        self.all_in.wait(3.0)
+        return True, ('meet', event.event_id)
+
+
+class EchoSub(BoboAction):
+    def __init__(self, name, fail_for=()):
+        super().__init__(name)
+        self.fail_for = set(fail_for)
+
+    def execute(self, event):
+        return (event.event_id not in self.fail_for), (self.name, event.event_id)
+
+
+def multi_overlap(res, rng, count, tag0):
+    """one multi-action object (the action of one phenomenon) executed for several complex events at the same time on
+    the thread-pool handler, the executions made to overlap between two sub-actions: every response carries the outcome
+    list of ITS OWN execution (own event, own sub-action outcomes, in order), as the sequential semantics give it."""
+    for b in range(count):
+        k = rng.choice((2, 2, 3))
+        stop = rng.random() < 0.5
+        evs = [cev(f'o{tag0 + b}_{i}') for i in range(k)]
+        fail_for = {e.event_id for e in evs if rng.random() < 0.3}
+        subs = [EchoSub('first'), MeetSub('meet', k), EchoSub('mid', fail_for), EchoSub('last')]
+        multi = BoboActionMultiSequential('mo', subs, stop)
+        h = BoboActionHandlerMultithreading(threads=k)
+        got = []
+        try:
+            for e in evs:
+                h.handle(multi, e)
+            wait_until(lambda: h.size() >= k, 8.0)
+            while True:
+                rr = h.get_handler_response()
+                if rr is None:
+                    break
+                got.append(rr)
+        finally:
+            h.close()
+            h.join()
+        case = {'kind': 'multi-overlap', 'events': [e.event_id for e in evs], 'fail_for': sorted(fail_for), 'stop_on_fail': stop}
+        res.add_case(case, nontrivial=True)
+        res.count('multi_overlap_batches')
+        if len(got) != k:
+            res.violations.append(Violation('response-missing:multi-overlap', f"{k} overlapping executions of one multi-action, {len(got)} responses", case))
+            continue
+        for rr in got:
+            eid = rr.complex_event.event_id
+            outs = [(True, ('first', eid)), (True, ('meet', eid)), ((eid not in fail_for), ('mid', eid)), (True, ('last', eid))]
+            exp_ok, exp_data, _ = multi_spec(outs, stop)
+            if rr.success != exp_ok or list(rr.data) != list(exp_data):
+                res.violations.append(Violation(
+                    'response-mismatch:multi-overlap',
+                    f"response for complex event {eid} of multi-action 'mo' (stop_on_fail={stop}) is ({rr.success}, {list(rr.data)}); "
+                    f"its own execution gives ({exp_ok}, {exp_data})", case))
+                break
+
+
 def pool_free_running(res, rng, make_handler, name, workers, n, tag, same_object, timeout=30.0):
     """sleeping actions, real scheduling: oracle only"""
     batch = make_batch(rng, n, tag)
@@ -519,6 +591,45 @@ def forwarder_cases(res, rng, lines, impl_out, count, tag0):
                 break
 
 
+def forwarder_pool_cases(res, rng, count, tag0):
+    """the forwarder over the thread-pool handler with SEVERAL responses ready before one `update()`: after draining,
+    exactly one action event per executed action, each with its own action name / outcome / complex event."""
+    for b in range(count):
+        n = rng.randint(2, 6)
+        table = {}
+        evs = []
+        for k in range(n):
+            evid = f'fp{tag0 + b}_{k}'
+            table[evid] = (rng.random() < 0.6, 8000 + 10 * b + k)
+            evs.append(cev(evid, 'php', f'pat{k % 2}'))
+        act = TableAction('ActP', table)
+        rec = FRec()
+        h = BoboActionHandlerMultithreading(threads=rng.randint(1, 3))
+        f = BoboForwarder([BoboPhenomenon('php', [], action=act)], h, IdGen(), TsGen())
+        f.subscribe(rec)
+        try:
+            for e in evs:
+                f.on_producer_update(e, True)
+            for _ in range(n):                       # every complex event is handed to the handler
+                f.update()
+            wait_until(lambda: h.size() >= n - len(rec.seen), 5.0)      # all remaining responses are ready at once
+            for _ in range(3 * n + 3):
+                f.update()
+        finally:
+            h.close()
+            h.join()
+        case = {'kind': 'forwarder-pool', 'events': [e.event_id for e in evs], 'table': {k: list(v) for k, v in table.items()}}
+        res.add_case(case, nontrivial=True)
+        res.count('forwarder_pool_batches')
+        got = sorted(((x.data, x.success, x.action_name, x.pattern_name) for x in rec.seen), key=repr)
+        exp = sorted(((table[e.event_id][1], table[e.event_id][0], 'ActP', e.pattern_name) for e in evs), key=repr)
+        if got != exp:
+            res.violations.append(Violation(
+                'action-event-count' if len(got) != len(exp) else 'action-event-fields',
+                f"forwarder over the thread-pool handler, {n} actions executed with several responses ready before one update(): "
+                f"{len(got)} action events published {got[:4]}, expected {len(exp)} {exp[:4]}", case))
+
+
 # --------------------------------------------------------------------------
 
 def run(ctx: Ctx) -> Result:
@@ -540,6 +651,8 @@ def run(ctx: Ctx) -> Result:
         blocking_cases(res, rng, lines, impl_out, 6000 if T else 300, 100)
         forwarder_cases(res, rng, lines, impl_out, 5000 if T else 200, 500)
         threads_gated(res, rng, lines, impl_out, 2500 if T else 100, 2000)
+        multi_overlap(res, rng, 200 if T else 12, 7000)
+        forwarder_pool_cases(res, rng, 300 if T else 20, 7500)
         for w in range(1, 9):
             for k in range(30 if T else 4):
                 pool_free_running(res, rng, lambda p: BoboActionHandlerMultithreading(threads=p), 'multithreading',
@@ -573,6 +686,8 @@ def search(ctx: Ctx) -> Result:
     forwarder_cases(res, rng, lines, impl_out, 200, 500)
     if not res.violations:
         threads_gated(res, rng, lines, impl_out, 40, 2000)
+        multi_overlap(res, rng, 30, 7000)
+        forwarder_pool_cases(res, rng, 40, 7500)
         for w in (1, 2, 4, 8):
             pool_free_running(res, rng, lambda p: BoboActionHandlerMultithreading(threads=p), 'multithreading', w, 30, 3000 + w, True)
         pool_free_running(res, rng, lambda p: BoboActionHandlerMultiprocessing(processes=p), 'multiprocessing', 2, 8, 990, False)
@@ -587,7 +702,7 @@ SPEC = PropSpec(
     rule='multi-action: every outcome vector of 1..6 sub-actions x stop_on_fail on/off (exhaustive, 252 cases) + 600/20000 seeded '
          'nested / event-dependent multi-actions; blocking handler: 300/6000 random handle/get scripts of 1..10 actions (queue bound 0,1,3); '
          'forwarder over the blocking handler: 200/5000 scripts of 1..10 complex events over 1..4 phenomena (with / without action, unknown); '
-         'multithreading handler: 100/2500 gated batches of 1..12 actions on 1..8 threads with a scripted completion order, plus 32/240 '
+         'one multi-action object executed for 2-3 complex events at once with the executions forced to overlap between two sub-actions (12/200 batches); multithreading handler: 100/2500 gated batches of 1..12 actions on 1..8 threads with a scripted completion order, plus 32/240 '
          'free-running batches of 1..24 sleeping actions on 1..8 threads; multiprocessing handler: batches of 1..6 (1..10) pickled actions '
          'on 1..2 (1..4, 8) processes. One action object serves several events with different outcomes; data values are unique per '
          'submission; responses are matched back by complex-event id. A multi case is non-trivial when some sub-action fails; all others are.',
